@@ -9,7 +9,8 @@ use crate::oracle::dir_of;
 use std::collections::BTreeMap;
 
 /// `dx` has `d` as a string prefix but is a different directory
-pub const KEYS: &[&str] = &["1", "2", "d/3", "d/4", "dx/5"];
+/// `http-6`: a note whose name starts like a url scheme (it is a note: there is no `://`)
+pub const KEYS: &[&str] = &["1", "2", "d/3", "d/4", "dx/5", "http-6"];
 
 pub const PLACEMENTS: &[&str] = &[
     "block-ref", "block-ref-h2", "inline-para", "heading", "item", "nested-item", "emphasis", "quote", "quote-ref", "after-table",
@@ -180,6 +181,8 @@ impl LibCase {
             let text = match self.others.as_str() {
                 "titled" => format!("# note {}\n", name),
                 "untitled" => format!("plain {}\n", name),
+                // the title is the note's own name: a refreshed link text then equals the url
+                "named" => format!("# {}\n", k.rsplit('/').next().unwrap()),
                 "back" => format!("# note {}\n\n[o]({})\n\nand [o]({}) inline\n", name, rel_url(&dir_of(k), &self.owner), rel_url(&dir_of(k), &self.owner)),
                 "linked-title" => format!("# note {} [x]({})\n", name, rel_url(&dir_of(k), "2")),
                 _ => panic!("others {}", self.others),
@@ -291,9 +294,9 @@ pub fn enumerate_level(level: u8, exts: &[&str], emit: &mut dyn FnMut(&LibCase))
             for p in PLACEMENTS {
                 for k in KINDS {
                     for u in &urls {
-                        for others in ["titled", "untitled"] {
+                        for others in ["titled", "untitled", "named"] {
                             for title in ["plain", "none"] {
-                                if !deep && title == "none" && others == "untitled" {
+                                if (!deep && title == "none" && others == "untitled") || (others == "named" && title == "none") {
                                     continue;
                                 }
                                 emit(&LibCase { owner: owner.to_string(), title: title.into(), others: others.into(), ext: ext.to_string(), blocks: vec![(p.to_string(), k.to_string(), u.clone())] });
